@@ -1,7 +1,7 @@
 (* Range: order dependence (F7), determinism with a single range unit, totality, NPT truncation (F8) *)
 From Coq Require Import ZifyBool ZifyNat ZifyN Permutation.
 From GVL Require Import NList.
-From GV Require Import Res Str StrProofs KeyVal KeyValProofs HdrTransport HdrAuthProofs HdrSessionProofs Float HdrRange.
+From GV Require Import Res Str StrProofs KeyVal KeyValProofs HdrTransport HdrAuthProofs HdrSessionProofs Float FloatProofs HdrRange.
 Open Scope N_scope.
 
 Definition is_unit (k : list N) : bool := list_eqb k K_smpte || list_eqb k K_npt || list_eqb k K_clock.
@@ -435,4 +435,24 @@ Proof.
     cbn [rstr forallb andb]. replace (rchar COL) with true by reflexivity. cbn [andb].
     destruct (0 <? sf); [|reflexivity]. rewrite rstr_app, (digits_rstr _ (fmt_uint2_digits _)). reflexivity.
   - rewrite Em. pose proof (fmt_uint_nonnil (S / 3600)). destruct (fmt_uint (S / 3600)); [congruence|discriminate].
+Qed.
+
+(* with the exactness of the float model on whole seconds (FloatProofs.seconds_whole) the SMPTE codec is unconditional *)
+Theorem smpte_codec t : wf_smpte t = true -> codec_ok smpte_unmarshal smpte_marshal t.
+Proof.
+  Local Ltac Zify.zify_post_hook ::= Z.div_mod_to_equations.
+  intros Hwf. apply smpte_codec_partial; [exact Hwf|].
+  unfold wf_smpte in Hwf. rewrite !andb_true_iff in Hwf. destruct Hwf as [[[[H0 Hm] Hlt] _] _].
+  set (S := Z.to_N (sm_time t / 1000000000)).
+  assert (E : Z.to_N (sm_time t) = S * E9). { unfold S. change E9 with 1000000000. lia. }
+  rewrite E, seconds_whole; [unfold S; lia|]. unfold S. change P53 with 9007199254740992. lia.
+Qed.
+
+Theorem range_roundtrip_smpte st en tm o :
+  is_perm o -> wf_smpte st = true -> opt_all wf_smpte en = true -> opt_all wf_utc tm = true ->
+  range_unmarshal_with o (range_marshal (mkRange (RSmpte st en) tm)) = Ok (mkRange (RSmpte st en) tm).
+Proof.
+  intros Ho H1 H2 H3. apply range_roundtrip_partial; [exact Ho| |exact H3].
+  cbn [r_value value_codec_ok]. split; [now apply smpte_codec|]. destruct en as [e|]; [|exact I].
+  cbn [opt_all] in H2. now apply smpte_codec.
 Qed.
